@@ -60,4 +60,4 @@ def run():
     d, ex = build_kani()
     r = kanilib.run_kani(d, "check_verify_token", timeout=600)
     return {"dir": d, "result": r, "items": ex, "harness": "check_verify_token",
-            "obligation": "C01.verify_token.exact", "props": ["C01", "C04"]}
+            "obligation": "C01.verify_token.exact", "props": ["C01", "C04", "C06"]}
